@@ -90,7 +90,7 @@ def sides(ctx):
                  oracle='formalize(): source = referring class = holder of source_keys; BridgePoint: R_RGO refers, R_RTO is referred to')
     da = repo.func('xtuml.meta:MetaModel.define_association')
     # ---- _get_related_attributes: l1 from O_RATTR (referential attribute), l2 from O_OIDA (identifying attribute)
-    gra = repo.func(OOA + ':_get_related_attributes')
+    gra = repo.nfunc(OOA + ':_get_related_attributes')       # normal form: the temporaries are folded into the append calls
     Q = OOA + ':_get_related_attributes'
     ps = param_names(gra, skip_self=False)
     rets = [n for n in ast.walk(gra) if isinstance(n, ast.Return)]
@@ -112,8 +112,9 @@ def sides(ctx):
             cur = src(m['_E'])
             curv = m['_V'].id
         m = pm.match('_L.append(_X.Name)', st)
-        if m and cur:
-            app[src(m['_L'])] = cur
+        if m:
+            x_ = m['_X']
+            app[src(m['_L'])] = cur if (isinstance(x_, ast.Name) and cur and x_.id == curv) else src(x_)
     r.check(app.get(first) == 'one(%s).O_RATTR[108].O_ATTR[106]()' % ref, 'first list = names of the referential attributes (O_RATTR over R108)',
             gra, construct=Q, key='l1', msg='the first list of _get_related_attributes is filled from `%s`, not from the referential attribute' % app.get(first))
     r.check(app.get(second) == 'one(%s).O_RTIDA[111].O_OIDA[110].O_ATTR[105]()' % ref,
@@ -123,7 +124,7 @@ def sides(ctx):
             'references are enumerated from the referred-to side (R_RTO) and filtered to the referring participant', lp, construct=Q, key='iter',
             msg='_get_related_attributes does not enumerate many(r_rto).O_RTIDA[110].O_REF[111](filter)')
     lam = [n for n in ast.walk(gra) if isinstance(n, ast.Lambda)]
-    r.check(len(lam) == 1 and src(lam[0].body) == '%s.OIR_ID == %s.OIR_ID' % (lam[0].args.args[0].arg, ps[0]),
+    r.check(len(lam) == 1 and pm.match('%s.OIR_ID == %s.OIR_ID' % (lam[0].args.args[0].arg, ps[0]), lam[0].body) is not None,
             'only references of the referring participant (same OIR_ID) are taken', gra, construct=Q, key='filter',
             msg='the reference filter of _get_related_attributes is not `ref.OIR_ID == r_rgo.OIR_ID`')
 
@@ -227,23 +228,68 @@ def _cmp(r, Q, call, kw, defs, want):
 
 
 def _phrases(r, Q, fn, kw, cond, crossed):
-    ok = False
-    for n in ast.walk(fn):
-        if isinstance(n, ast.If) and src(n.test) == cond:
-            then = {src(t): src(st.value) for st in n.body if isinstance(st, ast.Assign) for t in st.targets}
-            els = {}
-            for st in n.orelse:
-                if isinstance(st, ast.Assign):
-                    for t in st.targets:
-                        els[src(t)] = src(st.value)
-            plain = all(then.get(k) in ("''", "target_phrase = ''") or then.get(k) == "''" for k in crossed) or \
-                any(isinstance(st, ast.Assign) and len(st.targets) == 2 and src(st.value) == "''" for st in n.body)
-            ok = plain and all(els.get(k) == v for k, v in crossed.items())
-    used = all(src(kw.get(k)) == k for k in crossed)
-    r.check(ok and used, '%s: phrases are empty between different classes and crossed (%s) for a reflexive relationship'
+    '''value of the two phrase arguments of define_association under both outcomes of the "same class?" test: a small evaluation of the
+    top-level statements that assign them (default-then-override, if/else and conditional expressions are all the same to it)'''
+    ct = ast.parse(cond, mode='eval').body
+    a_, b_ = src(ct.left), src(ct.comparators[0])
+
+    def outcome(test, same):
+        '''truth of `test` when the two classes are / are not the same; None when the test is about something else'''
+        if isinstance(test, ast.UnaryOp) and isinstance(test.op, ast.Not):
+            o = outcome(test.operand, same)
+            return None if o is None else not o
+        if isinstance(test, ast.Compare) and len(test.ops) == 1 and isinstance(test.ops[0], (ast.Eq, ast.NotEq)) and \
+                {src(test.left), src(test.comparators[0])} == {a_, b_}:
+            return same if isinstance(test.ops[0], ast.Eq) else not same
+        return None
+
+    def value(e, env, same):
+        if isinstance(e, ast.Name) and e.id in env:
+            return env[e.id]
+        if isinstance(e, ast.IfExp):
+            o = outcome(e.test, same)
+            if o is None:
+                return '?'
+            return value(e.body if o else e.orelse, env, same)
+        if isinstance(e, ast.BoolOp) or isinstance(e, ast.Call):
+            return '?' + src(e)
+        return src(e)
+
+    def run(stmts, env, same):
+        for st in stmts:
+            if isinstance(st, ast.Assign):
+                v = value(st.value, env, same)
+                for t in st.targets:
+                    if isinstance(t, ast.Name):
+                        env[t.id] = v
+                    elif isinstance(t, (ast.Tuple, ast.List)) and isinstance(st.value, (ast.Tuple, ast.List)) and len(t.elts) == len(st.value.elts):
+                        for t2, v2 in zip(t.elts, st.value.elts):
+                            if isinstance(t2, ast.Name):
+                                env[t2.id] = value(v2, env, same)
+            elif isinstance(st, ast.If):
+                o = outcome(st.test, same)
+                if o is None:
+                    # a test about something else: both branches, assignments to phrase variables there are not understood
+                    touched = {n.id for x in st.body + st.orelse for n in ast.walk(x) if isinstance(n, ast.Name) and isinstance(n.ctx, ast.Store)}
+                    for k in touched & set(pvars):
+                        env[k] = '?'
+                else:
+                    run(st.body if o else st.orelse, env, same)
+    pvars = [kw[k].id for k in crossed if isinstance(kw.get(k), ast.Name)]
+    ok = all(k in kw for k in crossed)
+    got = {}
+    if ok:
+        for same in (False, True):
+            env = {}
+            run(body_without_doc(fn), env, same)
+            for k, w in crossed.items():
+                g = value(kw[k], env, same)
+                got[(k, same)] = g
+                ok = ok and g == (w if same else "''")
+    r.check(ok, '%s: phrases are empty between different classes and crossed (%s) for a reflexive relationship'
             % (Q.split(':')[1], crossed), fn, construct=Q, key='phrases',
             msg='%s: phrases must be empty when the two classes differ and otherwise %s (the phrase used to navigate from a class is the '
-                'one written at the other end)' % (Q, crossed))
+                'one written at the other end); the code passes %s' % (Q, crossed, {('%s, %s class' % (k[0], 'same' if k[1] else 'different')): v for k, v in sorted(got.items())}))
 
 
 def dispatch(ctx):
